@@ -62,6 +62,11 @@ type Input struct {
 	Steps  []Step     `json:"steps"`
 	Intent [][3]int64 `json:"intent"` // generator's command list (index in ProtoSpec.all_cmds, messages, parameters-within-limits 0/1); null = none
 	Tags   []string   `json:"tags"`
+	// when set: after the case the channel HeldTopic/HeldChan must still hold exactly
+	// Held messages of this client (in flight or deferred)
+	Held      *int64 `json:"held,omitempty"`
+	HeldTopic string `json:"held_topic,omitempty"`
+	HeldChan  string `json:"held_chan,omitempty"`
 }
 
 // index of a command in ProtoSpec.all_cmds
@@ -1009,12 +1014,16 @@ func genBoundary() []Input {
 	}
 	// REQ delays on a message that is not in flight: E_REQ_FAILED (non-fatal) or E_INVALID
 	for _, v := range []string{"0", "3600000", "3600001", "99999999999999999999", "x", "-1", ""} {
-		add("REQ.delay="+v, cat([]byte("SUB t1 c1\nREQ 0123456789abcdef "+v+"\n"), onePub), [][3]int64{{cSub, 0, 1}, {cReq, 0, 1}, {cPub, 1, 1}})
+		add("REQ.delay="+v, cat([]byte("SUB t1 c1\nREQ 0123456789abcdef "+v+"\n"), onePub), [][3]int64{{cSub, 0, 1}, {cReq, 0, b2i(v != "x" && v != "-1")}, {cPub, 1, 1}})
+		add("REQ.idlen=17,delay="+v, cat([]byte("SUB t1 c1\nREQ 0123456789abcdefg "+v+"\n"), onePub), [][3]int64{{cSub, 0, 1}, {cReq, 0, 0}, {cPub, 1, 1}})
 	}
-	for _, l := range []int{0, 15, 16, 17} {
+	for _, l := range []int{0, 15, 16, 17, 32} {
 		id := strings.Repeat("a", l)
 		for _, c := range []int{cFin, cTouch} {
-			add(fmt.Sprintf("%s.idlen=%d", cmdNames[c], l), cat([]byte("SUB t1 c1\n"+cmdNames[c]+" "+id+"\n"), onePub), [][3]int64{{cSub, 0, 1}, {int64(c), 0, 1}, {cPub, 1, 1}})
+			add(fmt.Sprintf("%s.idlen=%d", cmdNames[c], l), cat([]byte("SUB t1 c1\n"+cmdNames[c]+" "+id+"\n"), onePub), [][3]int64{{cSub, 0, 1}, {int64(c), 0, b2i(l == 16)}, {cPub, 1, 1}})
+			// the same as the last command of the stream, and after CLS
+			add(fmt.Sprintf("%s.idlen=%d(last)", cmdNames[c], l), []byte("SUB t1 c1\n"+cmdNames[c]+" "+id+"\n"), [][3]int64{{cSub, 0, 1}, {int64(c), 0, b2i(l == 16)}})
+			add(fmt.Sprintf("%s.idlen=%d(closing)", cmdNames[c], l), cat([]byte("SUB t1 c1\nCLS\n"+cmdNames[c]+" "+id+"\n"), onePub), [][3]int64{{cSub, 0, 1}, {cCls, 0, 1}, {int64(c), 0, b2i(l == 16)}, {cPub, 1, 1}})
 		}
 	}
 	// MPUB: count and declared size at their limits (1-byte messages: 5 bytes each)
@@ -1132,6 +1141,46 @@ func genProbes() []Input {
 		}
 	}
 	return ins
+}
+
+// overlong: a message is delivered and held; then FIN / REQ / TOUCH names it with extra
+// bytes appended to its id.  The id is malformed: fatal E_INVALID, and the message is still
+// held by the channel afterwards.
+func genOverlong(k int, variant int) Input {
+	topic := fmt.Sprintf("ol%d_%d", k, variant)
+	g := &gen{}
+	var steps []Step
+	var cur bytes.Buffer
+	cur.WriteString("  V2PUB " + topic + "\n")
+	cur.Write(be(3))
+	cur.WriteString("msg")
+	g.cmd(cPub, 1, true)
+	cur.WriteString("SUB " + topic + " ch\nRDY 1\n")
+	g.cmd(cSub, 0, true)
+	g.cmd(cRdy, 0, true)
+	steps = append(steps, send(cur.Bytes()), Step{K: "wait"})
+	if variant&1 == 1 {
+		steps = append(steps, Step{K: "sendid", Hex: hex.EncodeToString([]byte("TOUCH ")), Slot: 0, Post: hex.EncodeToString([]byte("\n"))})
+		g.cmd(cTouch, 0, true)
+	}
+	if variant&2 == 2 {
+		steps = append(steps, send([]byte("CLS\n")))
+		g.cmd(cCls, 0, true)
+	}
+	c := []int{cFin, cReq, cTouch}[(variant/4)%3]
+	extra := []string{"x", "0", "0123456789abcdef"}[(variant/12)%3]
+	post := extra
+	if c == cReq {
+		post += " 0"
+	}
+	steps = append(steps, Step{K: "sendid", Hex: hex.EncodeToString([]byte(cmdNames[c] + " ")), Slot: 0, Post: hex.EncodeToString([]byte(post + "\n"))})
+	g.cmd(c, 0, false)
+	// what follows must not be executed
+	steps = append(steps, send([]byte("NOP\n")))
+	g.cmd(cNop, 0, true)
+	one := int64(1)
+	return Input{Class: "overlong-id", Daemon: "inproc", Steps: steps, Intent: g.intent,
+		Tags: append(g.tags, fmt.Sprintf("overlong=%s+%dbytes", cmdNames[c], len(extra))), Held: &one, HeldTopic: topic, HeldChan: "ch"}
 }
 
 // ---------------------------------------------------------------- daemons
@@ -1291,6 +1340,39 @@ func (d *daemon) messageCount() (int64, bool) {
 		}
 	}
 	return s, true
+}
+
+// in-flight + deferred messages of one channel; -1 = the channel is not listed
+func (d *daemon) heldCount(topic, ch string) int64 {
+	c := http.Client{Timeout: 5 * time.Second}
+	resp, err := c.Get("http://" + d.http + "/stats?format=json")
+	if err != nil {
+		return -1
+	}
+	defer resp.Body.Close()
+	var st struct {
+		Topics []struct {
+			Name     string `json:"topic_name"`
+			Channels []struct {
+				Name     string `json:"channel_name"`
+				InFlight int64  `json:"in_flight_count"`
+				Deferred int64  `json:"deferred_count"`
+			} `json:"channels"`
+		} `json:"topics"`
+	}
+	if json.NewDecoder(resp.Body).Decode(&st) != nil {
+		return -1
+	}
+	for _, t := range st.Topics {
+		if t.Name == topic {
+			for _, c := range t.Channels {
+				if c.Name == ch {
+					return c.InFlight + c.Deferred
+				}
+			}
+		}
+	}
+	return -1
 }
 
 // ---------------------------------------------------------------- frames
@@ -1694,8 +1776,15 @@ func (rn *runner) run(name string, in Input) {
 		}
 		intent = "(Some " + lib.CoqList(ps) + ")"
 	}
-	coq := fmt.Sprintf("(J09.Conn %s %s %s %s %s %s %s %s %s %s)", d.coqCfg, lib.CoqBytes(stream.Bytes()), jsonTable(stream.Bytes()),
-		lib.CoqList(idStrs), full, lib.CoqList(coqFrames), lib.CoqZ(enq), lib.CoqBool(alive), lib.CoqBool(bystOK), intent)
+	held := "None"
+	var heldObs int64 = -2
+	if in.Held != nil && alive {
+		heldObs = d.heldCount(in.HeldTopic, in.HeldChan)
+		held = fmt.Sprintf("(Some (%s, %s))", lib.CoqZ(*in.Held), lib.CoqZ(heldObs))
+		tags = append(tags, fmt.Sprintf("held=%d", heldObs))
+	}
+	coq := fmt.Sprintf("(J09.Conn %s %s %s %s %s %s %s %s %s %s %s)", d.coqCfg, lib.CoqBytes(stream.Bytes()), jsonTable(stream.Bytes()),
+		lib.CoqList(idStrs), full, lib.CoqList(coqFrames), lib.CoqZ(enq), lib.CoqBool(alive), lib.CoqBool(bystOK), intent, held)
 	alltags := append([]string{"class=" + in.Class, "daemon=" + in.Daemon}, in.Tags...)
 	alltags = append(alltags, tags...)
 	if enq > 0 {
@@ -1707,7 +1796,7 @@ func (rn *runner) run(name string, in Input) {
 	alltags = dedupe(alltags)
 	rn.o.Emit(lib.Case{Name: name, Coq: coq, Input: in, Tags: alltags,
 		Nontrivial: respN > 0 || enq > 0 || len(coqFrames) > 1,
-		Obs:        map[string]interface{}{"frames": coqFrames, "enqueued": enq, "alive": alive, "bystander": bystOK, "stream_len": stream.Len(), "msgs_received": len(ids)}})
+		Obs:        map[string]interface{}{"frames": coqFrames, "enqueued": enq, "alive": alive, "bystander": bystOK, "stream_len": stream.Len(), "msgs_received": len(ids), "held_after": heldObs}})
 }
 
 func dedupe(xs []string) []string {
@@ -1756,6 +1845,9 @@ func main() {
 	}
 	for k, in := range genProbes() {
 		rn.run(fmt.Sprintf("probe-%d", k), in)
+	}
+	for v := 0; v < 36; v += 1 + int(*seed%3) { // every run: a third to all of the 36 variants
+		rn.run(fmt.Sprintf("overlong-%d", v), genOverlong(int(*seed%100000), v))
 	}
 	r := lib.NewRand(*seed)
 	long := 0
